@@ -4,6 +4,7 @@ exit 0: property held on everything explored (KNOWN-FINDING lines allowed)
 exit 1: VIOLATION property=<id> replay=<path>
 exit 2: tool trouble (build failure, TLC crash/timeout, negative control that did not fire)"""
 import json
+import shutil
 import os
 import re
 import subprocess
@@ -3971,6 +3972,22 @@ def main():
         sys.exit(2)
     try:
         sys.exit(CHECKS[pid](tier))
+    except vlib.HarnessCrash as e:
+        # the code under test brought the whole harness process down (abort / stack overflow): a crash is what the property forbids
+        rep = Report.CURRENT
+        inp = next((a for a in e.hargs[1:] if os.path.isfile(a)), None)
+        payload = {"kind": "the harness process was killed by signal %d while driving the crate" % -e.rc, "executor": e.hargs[0],
+                   "how_to_replay": "harness/target/release/zipconf " + " ".join(e.hargs), "stderr_tail": e.stderr[-1500:]}
+        if inp and os.path.getsize(inp) < 30_000_000:
+            keep = os.path.join(vlib.OUTROOT, "replays", "%s-crash-%s" % (pid, os.path.basename(inp)))
+            os.makedirs(os.path.dirname(keep), exist_ok=True)
+            shutil.copy(inp, keep)
+            payload["scenarios"] = keep
+        path = vlib.save_replay(pid, "harness-crash-" + e.hargs[0], payload)
+        if rep is None:
+            rep = Report(pid, tier)
+        rep.violations.append((path, "process abort while running %s" % e.hargs[0]))
+        sys.exit(rep.finish("model_checking", "(the run ended when the code under test aborted the harness process)"))
     except ToolTrouble as e:
         log("TOOL TROUBLE: %s" % e)
         rep = Report.CURRENT
